@@ -27,7 +27,7 @@ ASSUMPTIONS = [
     "scipy.signal.butter/sosfiltfilt/detrend are trusted primitives: the order of the steps and the windowing are under test, not scipy",
 ]
 NOT_REACHED = ["window lengths shorter than two sample intervals", "records longer than 40000 samples"]
-BUDGET = {"quick": dict(cases=4000, seconds=60, shards=4),
+BUDGET = {"quick": dict(cases=6000, seconds=60, shards=4),
           "thorough": dict(cases=400000, seconds=600, shards=16)}
 REQUIRED = ["mon:tiling", "mon:window-samples-unaltered", "mon:too-long-window-refused", "mon:components-split-identically",
             "mon:step-order", "mon:windows-match-model-pipeline", "method_events"]
